@@ -39,6 +39,70 @@ def prop(pid, level, explanation, not_covered, assumptions=(), claim="", note=""
                       claim=claim or explanation, note=note or "; ".join(TRUSTED_COMMON), technique=technique or "Verus deductive verification of extracted real function bodies against spliced contracts", **kw)
 
 
+VERUS_NOTE = ("Proved tier: Verus/Z3 on the real function bodies extracted from /repo/src on every run (rules T1-T10); "
+              "assumed: vstd std specs, the external_body/assume_specification items listed in coverage.trusted_base, "
+              "the meta-argument from per-combinator contracts to arbitrary parser trees. Bounded Kani units are reported separately and never counted as proved.")
+
+prop("C01", "proof",
+     "mechanism-level proof: (M1) primitive consumers take the leftmost available matching item in scope and nothing else; "
+     "(M3) repetition/optionality refine opt_rel/iter_rel (value kept only if something was consumed; failures swallowed only if catchable) and terminate; "
+     "(M4) run_subparser returns Ok only if the inner parser succeeded and nothing available is left. The language-equality theorem itself is not derived.",
+     ["equality of the accepted language with the grammar for an arbitrary combinator tree (meta-argument only)",
+      "ParseMany/ParseCollect::eval bodies (from_fn(..).collect(), outside Verus)", "construct! at arities above 3", "the tokenizer (State::construct)"],
+     note=VERUS_NOTE)
+prop("C02", "proof",
+     "value pick-up after tokenisation: take_arg returns exactly the payload of the item following the leftmost matching name (Word or ArgWord), "
+     "marks exactly those two items, and `adjacent` accepts exactly the same-item spellings (matches_arg table). Tokenizer is outside this check.",
+     ["split_os_argument / disambiguate_short (byte-level tokenizer): not under contract here", "parse_os_str pass-through"],
+     note=VERUS_NOTE)
+prop("C03", "proof",
+     "named consumers find a matching item wherever it is in scope (found_iff_exists), consume the leftmost one, and positional consumers skip named items; "
+     "the permutation theorem for whole parsers is a meta-argument over these.",
+     ["the permutation theorem for whole parsers (meta-argument: every consumer is one of the verified primitives)"],
+     note=VERUS_NOTE)
+prop("C04", "proof",
+     "absence of panics (index, overflow, unwrap) and termination of every function under contract, under the ledger invariant wf; "
+     "every contract determines result and final state as a relation of the arguments only.",
+     ["Message::render, render_console, markdown/html/manpage renderers, meta_youmean, completion rendering (check_complete) – outside both tools",
+      "purity of user closures is assumed"],
+     note=VERUS_NOTE)
 prop("C05", "proof",
      "ledger argument: an item becomes Parsed only through State::remove on an in-scope present index; iteration yields only available items; every consumer marks exactly the items it returns; wrappers restore the state on a caught failure; Ok from run_subparser implies nothing available remains",
      ["scope restoration inside ParseAdjacent/ParseCommand"])
+
+PROPS["C05"]["note"] = VERUS_NOTE
+prop("C06", "proof",
+     "error classes written from the statement (absence classes catchable; conversion/parse/guard/missing-value final) equal Message::can_catch; "
+     "optional/some/count/last/fallback/fallback_with refine relations in which a default is produced only from a catchable inner failure "
+     "(for Missing: only if nothing was consumed) and every other failure is returned unchanged; guard/parse attach the declared text and position.",
+     ["final rendering of the text by Message::render", "many/collect bodies"],
+     note=VERUS_NOTE)
+prop("C07", "proof",
+     "or_else decision table (this_or_that_picks_first + ParseOrElse::eval): deeper path wins; equal depth: both fail -> combined error, state untouched; one succeeds -> it; "
+     "both succeed -> first if neither consumed, else the branch that consumed the leftmost differing item, the loser's items marked Conflict (still present => leftover failure). "
+     "pick_winner/save_conflicts are used through assumed contracts.",
+     ["pick_winner / save_conflicts bodies (iterator code): assumed contract", "rendering of the conflict message"],
+     note=VERUS_NOTE)
+prop("C08", "proof",
+     "take_cmd succeeds only on the first available item with exactly the command's text (never PosWord/ArgWord/--x=..); deeper path wins in or_else; "
+     "an inner level's final output passes through run_subparser untouched and leftovers of a level fail it.",
+     ["ParseCommand::eval scope narrowing and path push (closures over &mut State inside iter().any, outside Verus)"],
+     note=VERUS_NOTE)
+prop("C09", "proof",
+     "PosWord never matches a flag/argument name, command or help; take_positional_word reports strict <=> PosWord and delivers the word verbatim; "
+     "StrictPos is final and NonStrictPos catchable.",
+     ["State::construct (the `--` tokenizer rule)", "parse_pos_word strictness table (pending unit)"],
+     note=VERUS_NOTE)
+prop("C10", "proof",
+     "run_subparser: unless the inner result is a final ParseFailure, a failed or incomplete parse consults Info::eval first and a help flag available anywhere in scope yields stdout, never a value; "
+     "Error/Message::combine_with keep an inner final output; ParseFlag is used through an assumed relational contract.",
+     ["ParseFlag::eval body (assumed contract)", "the state a failed ParseAdjacent hands back", "construct! first-failing-field (pending unit)"],
+     note=VERUS_NOTE)
+prop("C11", "proof",
+     "exit_code table (stdout/completion -> 0, stderr -> 1) and run_subparser: a value only on success. The process-level part (run(), argv[0], printing, exit) has no contract in either tool.",
+     ["OptionParser::run in a real process, print_message, Args::current_args"],
+     note=VERUS_NOTE)
+prop("C12", "proof",
+     "narrow: hide/decorator wrappers do not change parsing; ParseHide::meta is Skip. Item collection/dedup/rendering are not covered.",
+     ["append_meta, Dedup, write_help_item, usage normalisation, render_help"],
+     note=VERUS_NOTE)
